@@ -452,6 +452,8 @@ def reuse_worlds(tier):
     worlds.append(("count-exons", w1, ["--count_exons"]))
     # two BAM files of one experiment (file-name groups; the novel isoform is supported by reads of a single file)
     worlds.append(("two-bams", w1, ["SPLIT2", "--read_group", "file_name"]))
+    # the same without --read_group: an experiment with several files is grouped by file name automatically
+    worlds.append(("two-bams-auto", w1, ["SPLIT2"]))
     # read groups from a table file (the only grouping mode with files of its own next to the saved assignments)
     worlds.append(("table-groups", w1, ["TABLE"]))
     if tier == "thorough":
